@@ -145,6 +145,20 @@ fn main() {
             work.push((text.clone(), f));
         }
     }
+    {
+        // plain data (model-free completeness): records whose members are scalars, pointers, small arrays, a complex number or a
+        // vector; whatever the allow-list mode, nothing the user asked for keeps them from Debug / Copy / Clone
+        // (`PLAIN-DATA:` lists the names the oracle below looks at)
+        // (vector members are written without a typedef: under --no-recursive-allowlist a typedef that is not allow-listed is, by
+        // design, a type the user keeps for themselves)
+        let text = "// PLAIN-DATA: PD1 PD2 PD3 PD4\nstruct PD1 { double _Complex z; int k; };\nstruct PD2 { int v __attribute__((vector_size(16))); int k; };\nstruct PD3 { int a; char b[8]; float f; void *p; };\nstruct PD4 { float _Complex zs[2]; float w __attribute__((vector_size(8))); short s; };\n".to_string();
+        for fl in [vec![], vec!["--allowlist-type", "PD.*"], vec!["--allowlist-type", "PD.*", "--no-recursive-allowlist"],
+                   vec!["--allowlist-type", "PD.*", "--no-recursive-allowlist", "--with-derive-partialeq", "--with-derive-default", "--impl-debug"]] {
+            let mut f: Vec<String> = fl.iter().map(|x| x.to_string()).collect();
+            f.push("--no-layout-tests".into());
+            work.push((text.clone(), f));
+        }
+    }
     for _p in 0..n_prog {
         let n_units = 3 + rng.below(9) as usize;
         let prog = Program::generate(&mut rng, n_units);
@@ -236,6 +250,22 @@ fn main() {
                 }
                 if samples.len() < 3 && !e.derives.is_empty() && e.derives.len() > 3 {
                     samples.push(format!("{{\"type\":{},\"derives\":{},\"impls\":{},\"flags\":{}}}", json_str(name), json_str(&format!("{:?}", e.derives)), json_str(&format!("{:?}", e.impls)), json_str(&flags.join(" "))));
+                }
+            }
+            // oracle 0 (fixed plain-data shapes): Debug, Copy and Clone are derived (they are on by default and no option of
+            // these cases turns them off)
+            if let Some(l) = text.lines().next().and_then(|l| l.strip_prefix("// PLAIN-DATA: ")) {
+                for n in l.split(' ') {
+                    match inv.get(n) {
+                        None => oracle.push(format!("{{\"class\":\"plain-data-missing\",\"errors\":{},\"flags\":{},\"header\":{}}}", json_str(&format!("`{n}` is not in the bindings")), json_str(&flags.join(" ")), json_str(&text))),
+                        Some(e) => {
+                            let missing: Vec<&str> = ["Debug", "Copy", "Clone"].into_iter().filter(|t| !e.derives.iter().any(|d| d == t)).collect();
+                            if !missing.is_empty() {
+                                oracle.push(format!("{{\"class\":\"trait-withheld-from-plain-data\",\"errors\":{},\"flags\":{},\"header\":{}}}",
+                                    json_str(&format!("`{n}` is plain data but is emitted without derive({}) (has {:?})", missing.join(", "), e.derives)), json_str(&flags.join(" ")), json_str(&text)));
+                            }
+                        }
+                    }
                 }
             }
             // oracle 1: rustc accepts every emitted derive / impl (soundness of derives)
